@@ -172,6 +172,78 @@ Definition LIT_TRUE : bytes := [116; 114; 117; 101].
 Definition LIT_FALSE : bytes := [102; 97; 108; 115; 101].
 Definition LIT_NULL : bytes := [110; 117; 108; 108].
 
+(** The text after the opening quote of a member name: stringEnd, Unescape (when the name
+    contains a backslash; the identity otherwise), nextToken, ':' — returns the decoded name and
+    the text at the first token of the value. *)
+Definition read_key (t : bytes) : option (bytes * bytes) :=
+  match str_end false t with
+  | None => None
+  | Some (rawkey, t1) =>
+    match unescape rawkey with
+    | None => None
+    | Some key =>
+      match skipws t1 with
+      | [] => None
+      | c2 :: t2 => if N.eqb c2 COLON then Some (key, skipws t2) else None
+      end
+    end
+  end.
+
+(** Step 4 of ObjectEach after a value: closing brace, or comma and the next token. *)
+Definition after_value (loop : bytes -> flatmap -> rres) (acc : flatmap) (rest : bytes) : rres :=
+  match skipws rest with
+  | [] => RErr
+  | d :: r =>
+    if N.eqb d RBRACE then ROk acc
+    else if N.eqb d COMMA then
+      match skipws r with
+      | [] => RErr
+      | x :: r' => loop (x :: r') acc
+      end
+    else RErr
+  end.
+
+(** Get(data[offset:]) = nextToken + getType, then the callback of jsonToPlainStringMap.
+    [cur] = text at the first token of the value ([] = nextToken returned -1), [each] = the
+    recursive jsonToPlainStringMap, [cont] = what follows the value. *)
+Definition value_step (each : bytes -> bytes -> flatmap -> rres) (cont : flatmap -> bytes -> rres)
+           (nk : bytes) (cur : bytes) (acc : flatmap) : rres :=
+  match cur with
+  | [] => RErr
+  | v :: t3 =>
+    if N.eqb v QUOTE then
+      match str_end false t3 with
+      | None => RErr
+      | Some (raw, t4) =>
+        match unescape raw with
+        | None => RErr
+        | Some s => cont (acc ++ [(nk, s)]) t4
+        end
+      end
+    else if N.eqb v LBRACK then
+      match block_end LBRACK RBRACK cur with
+      | None => RErr
+      | Some (_, t4) => cont acc t4
+      end
+    else if N.eqb v LBRACE then
+      match block_end LBRACE RBRACE cur with
+      | None => RErr
+      | Some (blk, t4) =>
+        match each nk blk acc with
+        | ROk acc' => cont acc' t4
+        | e => e
+        end
+      end
+    else
+      let (tok, t4) := token_end cur in
+      if N.eqb v 116 || N.eqb v 102 then
+        if bytes_eqb tok LIT_TRUE || bytes_eqb tok LIT_FALSE then cont acc t4 else RErr
+      else if N.eqb v 117 || N.eqb v 110 then
+        if bytes_eqb tok LIT_NULL then cont acc t4 else RErr
+      else if is_digit_or_minus v then cont (acc ++ [(nk, tok)]) t4
+      else RErr
+  end.
+
 (** [obj_each] = jsonToPlainStringMap(parent, result, data) = ObjectEach(data, callback);
     [obj_loop] = the "for offset < len(data)" loop of ObjectEach with cur = data[offset:]. *)
 Fixpoint obj_each (fuel : nat) (parent data : bytes) (acc : flatmap) {struct fuel} : rres :=
@@ -198,69 +270,11 @@ with obj_loop (fuel : nat) (parent cur : bytes) (acc : flatmap) {struct fuel} : 
       if N.eqb c RBRACE then ROk acc
       else if negb (N.eqb c QUOTE) then RErr
       else
-      match str_end false t with
-      | None => RErr
-      | Some (rawkey, t1) =>
-      match unescape rawkey with
-      | None => RErr
-      | Some key =>
-      match skipws t1 with
-      | [] => RErr
-      | c2 :: t2 =>
-      if negb (N.eqb c2 COLON) then RErr
-      else
-      match skipws t2 with
-      | [] => RErr
-      | v :: t3 =>
-        let nk := join_key parent key in
-        (* step 4 of ObjectEach: closing brace, or comma and the next token *)
-        let cont (acc' : flatmap) (rest : bytes) : rres :=
-          match skipws rest with
-          | [] => RErr
-          | d :: r =>
-            if N.eqb d RBRACE then ROk acc'
-            else if N.eqb d COMMA then
-              match skipws r with
-              | [] => RErr
-              | x :: r' => obj_loop f parent (x :: r') acc'
-              end
-            else RErr
-          end in
-        if N.eqb v QUOTE then
-          match str_end false t3 with
-          | None => RErr
-          | Some (raw, t4) =>
-            match unescape raw with
-            | None => RErr
-            | Some s => cont (acc ++ [(nk, s)]) t4
-            end
-          end
-        else if N.eqb v LBRACK then
-          match block_end LBRACK RBRACK (v :: t3) with
-          | None => RErr
-          | Some (_, t4) => cont acc t4
-          end
-        else if N.eqb v LBRACE then
-          match block_end LBRACE RBRACE (v :: t3) with
-          | None => RErr
-          | Some (blk, t4) =>
-            match obj_each f nk blk acc with
-            | ROk acc' => cont acc' t4
-            | e => e
-            end
-          end
-        else
-          let (tok, t4) := token_end (v :: t3) in
-          if N.eqb v 116 || N.eqb v 102 then
-            if bytes_eqb tok LIT_TRUE || bytes_eqb tok LIT_FALSE then cont acc t4 else RErr
-          else if N.eqb v 117 || N.eqb v 110 then
-            if bytes_eqb tok LIT_NULL then cont acc t4 else RErr
-          else if is_digit_or_minus v then cont (acc ++ [(nk, tok)]) t4
-          else RErr
-      end
-      end
-      end
-      end
+        match read_key t with
+        | None => RErr
+        | Some (key, cur3) =>
+          value_step (obj_each f) (after_value (obj_loop f parent)) (join_key parent key) cur3 acc
+        end
     end
   end.
 
